@@ -29,8 +29,20 @@ def _is_fresh_signal_list(ex, t, count, shape_pred) -> bool:
     return it == ("call", ("n", "range"), (count,), ()) and not conds and elt is not None and elt.ctor[0] == "call" and elt.ctor[1] == ("n", "Signal") and shape_pred(elt.ctor[2])
 
 
+def _all_comb(ctx, fn, name):
+    hs = [h for ex in fn.exs for h in ex.of(HwAssign)]
+    wrong = [h for h in hs if h.domain != ("c", "comb")]
+    ctx.check(bool(hs) and not wrong, "C38.combinational", wrong[0].site if wrong else fn.site, f"{name}.domains", found=f"{len(hs)} assignment(s)" + (f"; {tstr(wrong[0].domain)} += {tstr(wrong[0].lhs)}" if wrong else ", all comb"),
+              required="the network is purely combinational: every assignment is in m.d.comb (results in the same cycle)", nontrivial=False)
+
+
 def priority_tree(ctx):
     fn = Fn(ctx.repo, ELAB, "MultiPriorityEncoder._build_tree", "C38")
+    _all_comb(ctx, fn, "MultiPriorityEncoder._build_tree")
+    _all_comb(ctx, Fn(ctx.repo, ELAB, "MultiPriorityEncoder.elaborate", "C38"), "MultiPriorityEncoder.elaborate")
+    _all_comb(ctx, Fn(ctx.repo, ELAB, "RingMultiPriorityEncoder.elaborate", "C38"), "RingMultiPriorityEncoder.elaborate")
+    _all_comb(ctx, Fn(ctx.repo, ELAB, "StableSelectingNetwork.elaborate", "C38"), "StableSelectingNetwork.elaborate")
+    _all_comb(ctx, Fn(ctx.repo, ELAB, "OneHotMux.elaborate", "C38"), "OneHotMux.elaborate")
     in_sig, start = fn.param(2), fn.param(3)
     leaf_t = ("op", "==", ("c", 1), ("call", ("n", "len"), (in_sig,), ()))
     leaf = [ex for ex in fn.exs if dict(ex.config).get(leaf_t) is True]
@@ -361,6 +373,28 @@ def selecting_network(ctx):
         ctx.check(ok, "C38.network.outputs", outs[0].site if outs else fn.site, "StableSelectingNetwork.outputs", found="; ".join(f"{tstr(h.lhs)} <- {tstr(h.rhs)}" for h in outs + cnts),
                   required="outputs[k] = the root group's element k for every k < n; output_cnt = the root group's count")
     ctx.floor("C38", "StableSelectingNetwork configurations", n_cfg, 1, fn.site)
+    # level loop: groups are merged pairwise while at least two remain (outer and inner loop), a single leftover group moves on
+    ex = fn.exs[0]
+    tests = [v[0] for k, v in ex.loopdefs.items() if k[0] == "while"]
+    okw = len(tests) == 2
+    detail = "; ".join(tstr(t) for t in tests)
+    if okw:
+        for t in tests:
+            lens = [x for x in subterms(t) if x[0] == "call" and x[1] == ("n", "len") and len(x[2]) == 1]
+            try:
+                okw = okw and len(set(lens)) == 1 and all(bool(evalt(t, {lens[0]: n})) == (n >= 2) for n in range(0, 7))
+            except NotEvaluable:
+                okw = False
+    ctx.check(okw, "C38.network.level-loop", fn.site, "StableSelectingNetwork.loops", found=detail or "no while loop", required="both loops run while at least two groups remain (len(level) >= 2)")
+    left = [t for e in fn.exs for t, v in e.config if pmatch("1 == len(Q_l)", t) is not None]
+    ctx.check(bool(left), "C38.network.leftover", fn.site, "StableSelectingNetwork.leftover", found="; ".join(sorted({tstr(t) for t in left})) or "no leftover test", required="an odd group left over on a level (len == 1) is moved to the next level")
+    # declared result shapes
+    from ..comp import Component
+
+    comp = Component(ctx.repo, ELAB, "StableSelectingNetwork", rule="C38")
+    d = comp.init_attr("output_cnt")
+    m = pmatch("Signal(range(Q_n))", d) if d else None
+    ctx.check(m is not None and lin_equal(m["n"], pat("self.n + 1")), "C38.network.count-range", fn.site, "StableSelectingNetwork.output_cnt.shape", found=tstr(d) if d else "not declared", required="Signal(range(n + 1)): the count of valid inputs can be n")
 
 
 def create_helpers(ctx):
